@@ -1402,6 +1402,11 @@ def run_C19(tier, seed, res, drv, replay=None):
         base + [("newSched", 5, [], N, None), ("newSeq", 0, [N], N, 5), ("append", 0, [J(0)])],
         base + [("newSched", 5, [], N, None), ("newSched", 6, [], N, None), ("requires", 0, [J(5), J(6)], False), ("newSeq", 0, [J(1), J(5), J(2)], J(6), None)],
         base + [("newSched", 5, [], N, None), ("newJob", 6, J(5), 5), ("add", 5, J(0)), ("update", 5, [J(1), N])],
+        # requirements held by a still-empty sequence survive an append() that brings no job
+        base + [("newSeq", 0, [], J(4), None), ("append", 0, [N]), ("append", 0, [J(0), J(1)])],
+        base + [("newSeq", 0, [], N, None), ("newSeq", 1, [N], N, None), ("seqRequires", 0, [J(3), L(J(4), N)]),
+                ("append", 0, [Q(1)]), ("append", 0, [J(0)])],
+        base + [("newSeq", 0, [N], J(3), None), ("append", 0, [L()]), ("append", 0, [N, J(0)]), ("append", 0, [N]), ("append", 0, [J(1)])],
     ]
     for prog in corpus:
         c19_case(prog, 8, 3, res, batch, "corpus")
@@ -1423,6 +1428,24 @@ def run_C19(tier, seed, res, drv, replay=None):
         if rng.random() < 0.5:
             prog.append(("append", 0, [J(5)]))
         c19_case(prog, 8, 3, res, batch, "seq-edit-append")
+    # a sequence that holds requirements while it is empty, job-less append()s, then its first jobs
+    for i in range(150 if tier == "quick" else 3000):
+        prog = [("newJob", k, N, None) for k in range(7)]
+        prog.append(("newSeq", 1, rng.choice([[], [N]]), N, None))
+        prog.append(("newSeq", 0, rng.choice([[], [N], [Q(1)]]), rng.choice([N, J(5), L(J(5), J(6))]), None))
+        steps = rng.randint(2, 5)
+        first = rng.randint(1, steps - 1)
+        nxt = 0
+        for t in range(steps):
+            if rng.random() < 0.3:
+                prog.append(("seqRequires", 0, [J(rng.choice([5, 6]))]))
+            if t < first:
+                prog.append(("append", 0, rng.choice([[N], [Q(1)], [L()], [N, L(N)], []])))
+            else:
+                k = rng.randint(1, 2)
+                prog.append(("append", 0, [J(nxt + x) for x in range(k)]))
+                nxt += k
+        c19_case(prog, 8, 3, res, batch, "pending-fill")
     # the same collection object given to two constructors, then one of the two jobs edited: the other must not move
     for i in range(150 if tier == "quick" else 3000):
         kind = rng.choice(["set", "list", "tuple"])
